@@ -327,7 +327,8 @@ package p9p
 //@ macro REFS = &sess.refs
 //@ macro R(f) = smval(REFS, f).(*SFid)
 //@ macro BOUND(f) = (smhas(REFS, f) && R(f).Ent != nil)
-//@ macro WF = (sess != nil && sess.fs != nil && (forall f Fid :: {smhas(REFS, f)} smhas(REFS, f) ==> typeis(smval(REFS, f), *SFid) && key(R(f)) > 0 && allocated(R(f))))
+//@ macro KEYS = (forall k any :: {smhas(REFS, k)} smhas(REFS, k) ==> typeis(k, Fid) && 0 <= k.(Fid) && k.(Fid) <= 4294967295)
+//@ macro WF = (sess != nil && sess.fs != nil && KEYS && (forall f Fid :: {smhas(REFS, f)} smhas(REFS, f) ==> typeis(smval(REFS, f), *SFid) && key(R(f)) > 0 && allocated(R(f))))
 //@ macro INJ = (forall f Fid, g Fid :: {smval(REFS, f), smval(REFS, g)} smhas(REFS, f) && smhas(REFS, g) && f != g ==> R(f) != R(g))
 //@ macro LEDGER = (forall f Fid :: {smhas(REFS, f)} BOUND(f) ==> issued(R(f).Ent) && !released(R(f).Ent))
 //@ macro DISTINCT = (forall f Fid, g Fid :: {smval(REFS, f), smval(REFS, g)} BOUND(f) && BOUND(g) && f != g ==> key(R(f).Ent) != key(R(g).Ent))
@@ -476,3 +477,15 @@ package p9p
 //@ ensures failed: err != nil ==> (TABLE_SAME && SAMEREL) || (old(BOUND(parent)) && !smhas(REFS, parent) && OTHERS_SAME(parent) && released(old(R(parent).Ent)) && (forall k int :: {gk(released, k)} gk(released, k) != old(gk(released, k)) ==> k == key(old(R(parent).Ent)) || !was(issued, k)))
 //@ ensures created: err == nil ==> old(BOUND(parent)) && BOUND(parent) && smval(REFS, parent) == old(smval(REFS, parent)) && NEWENT(R(parent).Ent) && R(parent).File != nil && R(parent).Mode == mode && released(old(R(parent).Ent)) && ONLYREL(old(R(parent).Ent)) && OTHERS_SAME(parent)
 //@ ensures locks: UNLOCKED
+
+//@ func (*session).Stop
+//@ property C08 C11 C13 C14
+//@ requires TABLE && QUIET
+//@ ensures nothing_bound: forall f Fid :: {smhas(REFS, f)} !BOUND(f)
+//@ ensures released_all: forall f Fid :: {smhas(REFS, f)} old(BOUND(f)) ==> released(old(R(f).Ent))
+//@ ensures passes_error: result == err
+//@ rangeinv keys: forall k any :: {smhas(REFS, k)} smhas(REFS, k) == old(smhas(REFS, k)) && (smhas(REFS, k) ==> smval(REFS, k) == old(smval(REFS, k)))
+//@ rangeinv wf: WF && INJ
+//@ rangeinv done: forall f Fid :: {smhas(REFS, f)} visited(f) ==> !BOUND(f) && (old(BOUND(f)) ==> released(old(R(f).Ent)))
+//@ rangeinv todo: forall f Fid :: {smhas(REFS, f)} !visited(f) && smhas(REFS, f) ==> R(f).Ent == old(R(f).Ent) && (old(BOUND(f)) ==> !released(old(R(f).Ent)))
+//@ rangeinv distinct: forall f Fid, g Fid :: {smval(REFS, f), smval(REFS, g)} old(BOUND(f)) && old(BOUND(g)) && f != g ==> key(old(R(f).Ent)) != key(old(R(g).Ent))
